@@ -316,9 +316,10 @@ def check_bulk_builder(ctx: Ctx, rep: Report, wm: WalkModel, r2: str, r3: str) -
     if concat is not True:
         return
     grid_ok = True
-    for s in range(0, 3):
-        for r in range(0, 4):
-            for m in range(0, 4):
+    deep = rep.tier == "thorough"
+    for s in range(0, 5 if deep else 3):
+        for r in range(0, 7 if deep else 4):
+            for m in range(0, 8 if deep else 4):
                 at0 = atoms_for(s, r, m, 0)
                 try:
                     nr = int_eval(defs.expand(nr_arg), at0)
